@@ -291,6 +291,11 @@ def extract_closure_fn(src: Source, item: Item, stub=False):
                 sha256=hashlib.sha256(verb.encode()).hexdigest(), stub=stub,
                 note='closure emitted as fn %s; parameter/return types from the builtin struct field type' % spec['fname'])
     ps = ', '.join('%s: %s' % (n, t) for n, t in zip(params, spec['params']))
+
+    def pn(e):  # contracts name the closure parameters positionally: P0, P1, ...
+        for k, n in enumerate(params):
+            e = re.sub(r'\bP%d\b' % k, n, e)
+        return e
     rname = item.ret or 'r'
     sig = 'fn %s(%s) -> (%s: %s)\n' % (spec['fname'], ps, rname, spec['ret'])
     segs = [Seg(a + '\n', item.id, 'attr') for a in item.attrs]
@@ -301,11 +306,11 @@ def extract_closure_fn(src: Source, item: Item, stub=False):
         segs.append(Seg('    requires\n', item.id, 'kw'))
         for name, e in item.requires:
             # closure parameter names may differ from the contract's canonical a, b
-            segs.append(Seg('        %s,\n' % e, item.id, 'requires', name))
+            segs.append(Seg('        %s,\n' % pn(e), item.id, 'requires', name))
     if item.ensures:
         segs.append(Seg('    ensures\n', item.id, 'kw'))
         for name, e in item.ensures:
-            segs.append(Seg('        %s,\n' % e, item.id, 'ensures', name))
+            segs.append(Seg('        %s,\n' % pn(e), item.id, 'ensures', name))
     if stub:
         segs.append(Seg('{ unimplemented!() }\n', item.id, 'stubbody'))
     else:
